@@ -313,7 +313,7 @@ func (db *TempPool) OperationHashes(
 
 			// NOTE filter duplicated fact; last one will be selected
 			if prev, found := facts[meta.Fact().String()]; found {
-				removeops = append(removeops, meta.Operation())
+				removeops = append(removeops, ops[prev][0]) // NOTE older one will be removed
 
 				nops := make([][2]util.Hash, len(ops))
 				copy(nops, ops[:prev])
